@@ -89,6 +89,7 @@ type cascadeResult struct {
 	Hung    bool
 	Panics  []string
 	NotFin  []uint64
+	Stuck   bool
 }
 
 func kindOf(k string) []string { return strings.Split(k, ".") }
@@ -116,7 +117,10 @@ func newCascadeRun(prog *CProg, controlled bool) *cascadeRun {
 	verifhook.Set(cr.s.Handle)
 	cr.proc = engine.NewProcessor(prog.Workers)
 	cr.proc.ThreadPool().TooManyCallback = func() {}
-	cr.proc.SetFailOnFirstErrorInTriggerSequence(prog.FailFast)
+	// the error behaviour can be set at any time: every second program configures it on the started processor
+	// (and starts with the opposite setting)
+	lateConfig := len(prog.Rules)%2 == 1
+	cr.proc.SetFailOnFirstErrorInTriggerSequence(prog.FailFast != lateConfig)
 	if prog.ErrObs {
 		cr.proc.SetRootMonitorErrorObserver(func(rm *engine.RootMonitor) {
 			defer func() {
@@ -189,6 +193,9 @@ func newCascadeRun(prog *CProg, controlled bool) *cascadeRun {
 		cr.s.Spawn(fmt.Sprintf("c%d", i+1), func() {
 			if i == 0 {
 				cr.proc.Start()
+				if lateConfig {
+					cr.proc.SetFailOnFirstErrorInTriggerSequence(prog.FailFast)
+				}
 				close(started)
 			} else {
 				<-started
@@ -199,7 +206,12 @@ func newCascadeRun(prog *CProg, controlled bool) *cascadeRun {
 			cr.s.Gate("client.op", i+1)
 			root := cr.proc.NewRootMonitor(nil, engine.NewRuleScope(map[string]bool{"": true, "forbidden": false}))
 			cr.track(root)
-			root.SetFinishHandler(func(p engine.Processor) { cr.s.Record("p.handler", root.ID()) })
+			root.SetFinishHandler(func(p engine.Processor) {
+				// what a handler is for: the cascade has ended, look at its monitor (errors, remaining priorities)
+				n := len(root.AllErrors())
+				hp := root.HighestPriority()
+				cr.s.Record("p.handler", root.ID(), n, hp)
+			})
 			cr.s.Record("p.root", root.ID(), kind)
 			res, err := cr.proc.AddEventAndWait(cr.newEvent(kind), root)
 			// the error report of the cascade
@@ -246,6 +258,7 @@ func (cr *cascadeRun) finish(out *sched.Outcome, err error) *cascadeResult {
 	atomic.StoreInt32(&cr.closed, 1)
 	verifhook.Set(func(string, ...interface{}) {})
 	cr.s.OpenAll()
+	t0 := time.Now()
 	cr.s.WaitDone(clients, 2*time.Second)
 	done := make(chan struct{})
 	go func() { cr.proc.ThreadPool().SetWorkerCount(0, false); close(done) }()
@@ -253,6 +266,7 @@ func (cr *cascadeRun) finish(out *sched.Outcome, err error) *cascadeResult {
 	case <-done:
 	case <-time.After(2 * time.Second):
 	}
+	res.Stuck = time.Since(t0) > 1500*time.Millisecond // the clean-up ran into its bounds: something of the run never ends
 	return res
 }
 
